@@ -889,6 +889,15 @@ impl<'tcx> M<'tcx> {
                 }
                 o => unsup(format!("IntToInt of {:?}", o)),
             },
+            CastKind::IntToFloat if matches!(v, V::Int(k) if k.abs() < (1 << 24)) => {
+                // small integer constants convert exactly
+                let V::Int(k) = v else { unreachable!() };
+                match to.kind() {
+                    ty::Float(ft) if ft.bit_width() == 32 => Ok(V::T(self.terms.mk(Term::CFloat((k as f32).to_bits() as u128, 32)))),
+                    ty::Float(ft) if ft.bit_width() == 64 => Ok(V::T(self.terms.mk(Term::CFloat((k as f64).to_bits() as u128, 64)))),
+                    _ => unsup("int to float cast target"),
+                }
+            }
             CastKind::FloatToInt | CastKind::IntToFloat | CastKind::FloatToFloat => {
                 let x = self.lift(&v, from)?;
                 Ok(V::T(self.terms.op(&format!("cast:{}:{}", from, to), vec![x])))
@@ -946,6 +955,22 @@ impl<'tcx> M<'tcx> {
 
     pub fn binop(&mut self, op: BinOp, l: V<'tcx>, lt: Ty<'tcx>, r: V<'tcx>, rt: Ty<'tcx>) -> R<V<'tcx>> {
         let tcx = self.tcx;
+        if let (V::T(x), V::T(y)) = (&l, &r) {
+            if let (Some(a), Some(b)) = (self.cfloat(*x), self.cfloat(*y)) {
+                let r = match op {
+                    BinOp::Lt => Some(a < b),
+                    BinOp::Le => Some(a <= b),
+                    BinOp::Gt => Some(a > b),
+                    BinOp::Ge => Some(a >= b),
+                    BinOp::Eq => Some(a == b),
+                    BinOp::Ne => Some(a != b),
+                    _ => None,
+                };
+                if let Some(r) = r {
+                    return Ok(V::Int(r as i128));
+                }
+            }
+        }
         if let (V::Int(a), V::Int(b)) = (&l, &r) {
             let (a, b) = (*a, *b);
             let n = |x: i128| V::Int(int_norm(tcx, lt, x));
